@@ -1,6 +1,6 @@
 import Uft.Model.Fstack
 import Uft.Lemmas.McountCore
-import Uft.Props.C05
+import Uft.Lemmas.McountRestore
 /- C07 helper lemmas, part 5: what the record-time hooks (Uft.Mcount, C02/C05) write for a
    call forest under -F / -N / -D / -t, as the same `specCalls ∘ pruneCalls`. -/
 set_option linter.unusedSimpArgs false
